@@ -238,6 +238,62 @@ def rule_flag_stores(fn, blocks):
                 if es == (('global', 'rule_has_nl'), ('global', 'num_rules')): out.append(x)
     return out
 
+
+def _tests_in(f, blocks, kind, src, flag_array='ccl_has_nl'):
+    """branches in `blocks` that test `src`: kind 'class' -> flag_array[src] != 0, kind 'char' -> src == nlch.
+    Returns [(br, pass_label, skip_label)]"""
+    out = []
+    for b in blocks:
+        br = b.ins[-1]
+        if kind == 'class':
+            tv = truthy_of(f, br)
+            if tv is not None and origin(f, tv[0]) == ('elem', ('global', flag_array), src): out.append((br, tv[1], tv[2]))
+        elif kind == 'char':
+            bt = branch_test(f, br)
+            if bt is None: continue
+            oa, ob = origin(f, bt[0]), origin(f, bt[1])
+            nl = (('global', 'nlch'), ('const', NL))
+            if (oa == src and ob in nl) or (ob == src and oa in nl): out.append((br, bt[2], bt[3]))
+    return out
+
+_summ = {}
+def mark_summary(prog, H, stores_of):
+    """what a helper H guarantees about the flag stores `stores_of(H)`: set of ('always',) | ('char', k) | ('class', k), k = parameter
+    index: the flag is stored on every returning path of H (on which parameter k is newline / is a flagged class)"""
+    key = (H.name, stores_of.__name__)
+    if key in _summ: return _summ[key]
+    out = set()
+    S = stores_of(H)
+    if S and H.blocks:
+        cfg = prog.cfg(H, cut=True); first = H.entry.ins[0]
+        if not any(x.op == 'ret' for x in cfg.reach(first, avoid=S, include_start=True)): out.add(('always',))
+        for k, (t, pn) in enumerate(H.params):
+            if pn is None: continue
+            po = ('local', pn + '.addr')
+            for kind in ('char', 'class'):
+                ts = _tests_in(H, H.blocks, kind, po)
+                skip = {(br.blk, H.bmap[sk]) for br, ps, sk in ts if ps != sk}
+                if skip and not any(x.op == 'ret' for x in cfg.reach(first, avoid=S, include_start=True, edge_filter=lambda b, t: (b, t) not in skip)):
+                    out.add((kind, k))
+    _summ[key] = out
+    return out
+
+def _rule_stores(H): return rule_flag_stores(H, H.blocks)
+
+def helper_marks(prog, f, blocks, need, stores_of=None):
+    """calls in `blocks` of helpers that store the rule flag for what `need` asks (one level of inlining)"""
+    stores_of = stores_of or _rule_stores
+    out = []
+    for b in blocks:
+        for c in b.ins:
+            if c.op != 'call' or not isinstance(c.callee, str) or c.callee == f.name: continue
+            H = prog.fn(c.callee)
+            if H is None or not H.blocks: continue
+            for sm in mark_summary(prog, H, stores_of):
+                if sm == ('always',) or (sm[0] == need[0] and sm[1] < len(c.ops) and origin(f, c.ops[sm[1]]) == need[1]):
+                    out.append(c); break
+    return out
+
 def _excluded_by_construction(prog, g):
     """global class `g` is built as cclinit(); ccladd(g, '\\n'); cclnegate(g) wherever it is assigned, and nowhere
     else negated: its flag ccl_has_nl[g] is false and it cannot match newline.  Returns (ok, text)."""
@@ -249,7 +305,7 @@ def _excluded_by_construction(prog, g):
             d = f.def_of(st.ops[0])
             if d is None or d.op != 'call' or d.callee != 'cclinit':
                 return False, '%s is assigned something other than cclinit() at %s' % (g, where(st))
-            cfg = cfg or prog_cfg(prog, f)
+            cfg = cfg or prog.cfg(f, cut=False)
             adds = [c for c in f.calls('ccladd') if origin(f, c.ops[0]) == ('global', g)]
             negs = [c for c in f.calls('cclnegate') if origin(f, c.ops[0]) == ('global', g)]
             nl_adds = [c for c in adds if origin(f, c.ops[1]) == ('const', NL)]
@@ -265,9 +321,6 @@ def _excluded_by_construction(prog, g):
             n += 1
     if n == 0: return False, '%s is never constructed' % g
     return True, "built as cclinit(); ccladd(%s,'\\n'); cclnegate(%s) at %d site(s)" % (g, g, n)
-
-def prog_cfg(prog, f, cut=False):
-    return prog.cfg(f, cut=cut)
 
 def r1(ctx):
     rep = ctx.rep; prog = ctx.flex
@@ -323,23 +376,10 @@ def r1(ctx):
         else:
             rep.fail('C09.R1', key, where(call), 'cannot tell where the argument of mkstate() comes from (%s); the rule cannot decide whether it may be a newline' % (ao,)); continue
         # tests of the right flag / character inside the action
-        tests = []      # (br, pass_label, skip_label)
-        for b in A:
-            br = b.ins[-1]
-            if need[0] == 'class':
-                tv = truthy_of(fn, br)
-                if tv is None: continue
-                o = origin(fn, tv[0])
-                if o == ('elem', ('global', 'ccl_has_nl'), need[1]): tests.append((br, tv[1], tv[2]))
-            elif need[0] == 'char':
-                bt = branch_test(fn, br)
-                if bt is None: continue
-                oa, ob = origin(fn, bt[0]), origin(fn, bt[1])
-                nl = (('global', 'nlch'), ('const', NL))
-                if (oa == need[1] and ob in nl) or (ob == need[1] and oa in nl): tests.append((br, bt[2], bt[3]))
+        tests = _tests_in(fn, A, need[0], need[1]) if need[0] in ('class', 'char') else []      # (br, pass_label, skip_label)
         skip_edges = {(br.blk, fn.bmap[sk]) for br, ps, sk in tests if ps != sk}
         filt = lambda b, t: (b, t) not in skip_edges
-        S = rule_flag_stores(fn, A)
+        S = rule_flag_stores(fn, A) + helper_marks(prog, fn, A, need)
         first = cb.ins[0]
         before = call not in pcfg.reach(first, avoid=S, include_start=True, edge_filter=lambda b, t: (b, t) not in skip_edges and t in A)
         after = not leaves_region(pcfg, call, A, avoid=S, edge_filter=filt)
@@ -357,7 +397,7 @@ def r1(ctx):
                             if es and es[0] == ('local', src[1]) and es[1] == ('const', src[2]): stale = x
                     if need[0] == 'class' and x.op == 'call' and x.callee in mutators and x.ops and origin(fn, x.ops[0]) == src: stale = x
         if ok and stale is None:
-            how = 'unconditional' if not tests else ('under ccl_has_nl[%s]' % arg_desc(need[1]) if need[0] == 'class' else 'under %s == nlch' % arg_desc(need[1]))
+            how = ('through %s()' % S[0].callee) if S[0].op == 'call' else 'unconditional' if not tests else ('under ccl_has_nl[%s]' % arg_desc(need[1]) if need[0] == 'class' else 'under %s == nlch' % arg_desc(need[1]))
             rep.ok('C09.R1', '%s %s: rule_has_nl[num_rules] = true %s @%s' % (prod, desc, how, S[0].line))
         elif stale is not None:
             rep.fail('C09.R1', key, where(call), 'in action `%s` the tested %s is changed after the test (%s), so the flag may be stale when %s runs' % (
@@ -457,6 +497,9 @@ def r2(ctx):
             rep.fail('C09.R2', key, fwhere(f), '%s() writes ccltbl[] but the class it extends cannot be identified (ccllen[] stores: %d)' % (f.name, len(lens))); continue
         cls = lens[0]
         S = [x for x in f.ins if x.op == 'store' and x.ops[0][0] == 'int' and x.ops[0][1] != 0 and elem_store(f, x) == (('global', 'ccl_has_nl'), cls)]
+        chs = {origin(f, x.ops[0]) for x in tb}
+        via = _ccl_helper_calls(prog, f, cls, chs.pop() if len(chs) == 1 else None)
+        S = S + via
         skip = set()
         for b in f.blocks:
             bt = branch_test(f, b.ins[-1])
@@ -467,7 +510,7 @@ def r2(ctx):
                     # the character compared must be the one stored into ccltbl[]
                     if all(origin(f, x.ops[0]) == ch for x in tb) and bt[2] != bt[3]: skip.add((b, f.bmap[bt[3]]))
         bad = [x for x in tb if x in cfg.reach(f.entry.ins[0], avoid=S, include_start=True, edge_filter=lambda b, t: (b, t) not in skip)]
-        if S and skip and not bad:
+        if S and (skip or via) and not bad:
             rep.ok('C09.R2', '%s: ccltbl[] store @%s only after ccl_has_nl[%s] = true under ch == nlch @%s' % (f.name, tb[0].line, arg_desc(cls), S[0].line))
         else:
             rep.fail('C09.R2', key, where((bad or tb)[0]), '%s() adds a character to a class without setting ccl_has_nl[] of that class when the character is '
@@ -515,6 +558,24 @@ def r2(ctx):
                     odd.append(x)
         if odd: rep.fail('C09.R2', 'C09.R2:flexdef.h:%s:non-boolean-store' % arr, where(odd[0]), '%s[] receives a value that is not 0/1' % arr)
         else: rep.ok('C09.R2', '%s[] only ever receives 0, 1 or its own complement' % arr)
+
+def _ccl_helper_calls(prog, f, cls, ch):
+    """calls in f of a helper H(.., class, .., ch, ..) that sets ccl_has_nl[class] on every returning path on which ch == nlch"""
+    out = []
+    if ch is None: return out
+    for c in f.ins:
+        if c.op != 'call' or not isinstance(c.callee, str) or c.callee == f.name: continue
+        H = prog.fn(c.callee)
+        if H is None or not H.blocks: continue
+        for i, (t, pi) in enumerate(H.params):
+            if pi is None or i >= len(c.ops) or origin(f, c.ops[i]) != cls: continue
+            def stores_i(H, pi=pi):
+                return [x for x in H.ins if x.op == 'store' and x.ops[0][0] == 'int' and x.ops[0][1] != 0
+                        and elem_store(H, x) == (('global', 'ccl_has_nl'), ('local', pi + '.addr'))]
+            stores_i.__name__ = 'ccl_has_nl[%s]' % pi
+            for sm in mark_summary(prog, H, stores_i):
+                if sm[0] == 'char' and sm[1] < len(c.ops) and origin(f, c.ops[sm[1]]) == ch: out.append(c)
+    return out
 
 def _is_negation_of(f, v, src):
     """v == !load(src) (through zext/trunc/sext, icmp eq 0 or xor 1)"""
@@ -704,8 +765,10 @@ def r5(ctx):
                 rep.fail('C09.R5', 'C09.R5:gen.c:%s:not-under-do_yylineno' % f.name, where(c), 'the call of %s() does not depend on ctrl.do_yylineno' % f.name)
             if f is m:
                 hold = [x for x in c.fn.ins if x.op == 'store' and x.ops[0] == ('reg', c.res)]
-                wr = [w for w in c.fn.calls('yytbl_data_fwrite') if hold and any(origin(c.fn, a) == origin(c.fn, ('reg', 'x')) for a in ())] if False else \
-                     [w for w in c.fn.calls('yytbl_data_fwrite') if hold and any((c.fn.def_of(a) is not None and c.fn.def_of(a).op == 'load' and c.fn.def_of(a).ops[0] == hold[0].ops[1]) for a in w.ops)]
+                def loads_hold(a):
+                    d = c.fn.def_of(a)
+                    return d is not None and d.op == 'load' and d.ops[0] == hold[0].ops[1]
+                wr = [w for w in c.fn.calls('yytbl_data_fwrite') if hold and any(loads_hold(a) for a in w.ops)]
                 if wr and wr[0] in prog.cfg(c.fn).reach(c): rep.ok('C09.R5', 'the table made by mkeoltbl is written with yytbl_data_fwrite@%s' % wr[0].line)
                 else: rep.fail('C09.R5', 'C09.R5:gen.c:mkeoltbl:not-written', where(c), 'the table made by mkeoltbl() is not passed to yytbl_data_fwrite()')
 
